@@ -904,7 +904,7 @@ fn model_class(reply: &str) -> String {
             // typ itself contains one colon ("BoundSheet8:hsState", "sheet:type")
             return format!("err:Unrecognized:{}:{}", parts[1], parts[2]);
         }
-        return format!("err:{}", parts[0]);
+        return format!("err:{}", if parts[0] == "io" { "Io" } else { parts[0] });
     }
     reply.to_string()
 }
@@ -1392,7 +1392,7 @@ fn corpus() -> Vec<Case> {
         c.names = vec![LName { name: "N1".into(), target: Target::Ref(0, 0, 26) }];
         v.push(c);
     }
-    // D39: xlsb read_workbook read the payload bytes of records it does not know as record ids: a BrtBookView
+    // C16-a: xlsb read_workbook read the payload bytes of records it does not know as record ids: a BrtBookView
     // (window geometry) with dxWn = 400 (bytes 90 01 = BrtEndBundleShs) gave a workbook without sheets, xWn = 412
     // (bytes 9C 01 00 = an empty BrtBundleSh) a panic
     for xs in [[0u32, 0, 400, 12300], [412, 0, 28800, 12300]] {
